@@ -549,6 +549,14 @@ func (s *sided) operatorLicenseIssues(pred string) []sideIssue {
 		if lenExprArg(be.X) != nil || lenExprArg(be.Y) != nil {
 			return true
 		}
+		// (a == nil) == (b == nil): an agreement test of two nil-ness tests compares booleans
+		isNilTest := func(e ast.Expr) bool {
+			b, ok := unparen(e).(*ast.BinaryExpr)
+			return ok && (b.Op == token.EQL || b.Op == token.NEQ) && (isNilLit(b.X) || isNilLit(b.Y))
+		}
+		if isNilTest(be.X) && isNilTest(be.Y) {
+			return true
+		}
 		licensed := false
 		if o := s.valOfExpr(be.X); o != nil {
 			for _, cand := range []*VOpaque{o, underlyingVal(o)} {
